@@ -314,6 +314,9 @@ func ruleC09Cancel(cx *Ctx) {
 			cl = origin(bm)
 		}
 	}
+	if cl != nil {
+		cl = origin(cl) // (an instantiated generic function stands for its generic body)
+	}
 	removes := cl != nil
 	if cl != nil {
 		allInstrs(cl, func(in ssa.Instruction) {
